@@ -59,7 +59,13 @@ def st_write():
         st.builds(lambda m: {"kind": "shared", "mut": m},
                   st.sampled_from(MUTATIONS)),
     )
-    return st.fixed_dictionaries({"split": st.integers(0, 1), "meta": meta})
+    return st.fixed_dictionaries({
+        "split": st.integers(0, 1),
+        "meta": meta,
+        # the example itself is invalid (wrong shape): the write is rejected,
+        # the caller catches the error and carries on
+        "bad": st.integers(0, 6).map(lambda x: x == 0),
+    })
 
 
 def strategy(tier):
@@ -127,6 +133,17 @@ def run_case(case, ctx):
                         kwargs["custom_metadata"] = shared  # the same object
                         shared_used = True
                     m_i = copy.deepcopy(kwargs.get("custom_metadata"))
+                    if w.get("bad"):
+                        values = dsops.example_for(desc, next_id)
+                        values["id"] = __import__("numpy").zeros((2,), "int64")
+                        try:
+                            filler.write_example(values=values, split=split,
+                                                 **kwargs)
+                        except Exception:  # pylint: disable=broad-except
+                            pattern.append((w["split"], "rejected",
+                                            m["kind"], m.get("i")))
+                            ctx.label("rejected-write")
+                            continue
                     filler.write_example(values=dsops.example_for(
                         desc, next_id),
                                          split=split,
